@@ -141,7 +141,8 @@ ALLOWED_OVERLAP = {frozenset(['hotfix', 'legacy_hotfix'])}
 # name grammar
 # ---------------------------------------------------------------------------
 VERSIONS = ['4', '4.3', '4.3.18', '4.3.18.2', '4.', '.3', '4.3.x', '04.3',
-            '', '10.0', '4.3.18.2.1', '4..3', 'x.y', '4.3.18.0']
+            '', '10.0', '4.3.18.2.1', '4..3', 'x.y', '4.3.18.0', '4.3-x',
+            '4.3.18-rc1', '4.3_1', '4.3 ', ' 4.3', '4.3.18.2-x', 'v4.3']
 LABEL_ATOMS = ['TEST-1', 'test-1', '1', '4.3', 'a.b', 'a-b', 'a_b', 'x',
                'TEST-1-foo', 'TEST-', '-1', 'T_2-30x', 'w', 'q', '',
                'w/4.3/bugfix/x', 'q/4.3', 'development/4.3', 'bugfix/y',
